@@ -80,6 +80,21 @@ def gen_cases(ctx, n):
         dl = start + rs * NS + rn
         rd = clock_script(r, start, dl, r.rng(0, 6), r.choice([1, 1, 2, NS, 7]))
         cases.append("nsleep %d %d %s" % (rs, rn, fmt_clock(rd)))
+    # the rem argument of myth_nanosleep: NULL / a separate object / the request object itself (nanosleep(&ts, &ts)),
+    # same request and same clock script for the three.  The model takes the request by value and stores nothing
+    # through rem, so the three results must be identical and no object may change (C20_sleep_rem_irrelevant).
+    for i in range(max(12, n // 8)):
+        if i < len(bad):
+            rs, rn = bad[i]
+        elif i < len(bad) + len(reqs):
+            rs, rn = reqs[i - len(bad)]
+        else:
+            rs, rn = r.rng(0, 3), r.choice(nsb)
+        start = r.choice([0, 999999999, NS, 5 * NS + 999999999, 1700000000 * NS + r.rng(0, NS - 1)])
+        rd = fmt_clock(clock_script(r, start, start + rs * NS + rn, r.rng(0, 6), r.choice([1, 1, 2, NS, 7])))
+        ps, pn = r.choice([(-7777, 123456789), (0, 0), (5, 999999999), (-1, -1)])
+        for mode in (0, 1, 2):
+            cases.append("nsleepr %d %d %d %d %d %s" % (mode, rs, rn, ps, pn, rd))
     for i in range(n // 2):
         us = r.choice([0, 1, 999, 1000, 999999, 1000000, 1000001, 1999999, 2000000, 4294967295, r.rng(0, 5000000)])
         start = r.choice([0, 999999999, 7 * NS + 999999000])
@@ -143,9 +158,11 @@ def oracle(case, out):
         if o[0] != "ret":
             return "call did not complete: " + out
         ret, reads, yields = int(o[1]), int(o[3]), int(o[5])
-        if w[0] in ("nsleep", "usleep", "sleep"):
+        if w[0] in ("nsleep", "usleep", "sleep", "nsleepr"):
             if w[0] == "nsleep":
                 rs, rn = int(w[1]), int(w[2]); k = 3
+            elif w[0] == "nsleepr":            # whatever rem is, the call is judged against the request as passed
+                rs, rn = int(w[2]), int(w[3]); k = 6
             elif w[0] == "usleep":
                 rs, rn = int(w[1]) // 1000000, (int(w[1]) % 1000000) * 1000; k = 2
             else:
@@ -238,7 +255,13 @@ def judge(ctx, cases, exe, drv, broken, log):
         msg = oracle(c, impl[i] if i < len(impl) else "<no output>")
         if msg:
             failing.append((c, impl[i] if i < len(impl) else "<no output>", msg))
-    ctx.cov["correspondence"] = {"cases": len(cases), "disagreements": len(diffs),
+    trip = {}
+    for i, c in enumerate(cases):
+        if c.startswith("nsleepr ") and i < len(impl):
+            trip.setdefault(" ".join(c.split()[2:]), []).append(" ".join(impl[i].split()[:6]))
+    rem_same = sum(1 for v in trip.values() if len(v) >= 3 and len(set(v)) == 1)
+    ctx.cov["correspondence"] = {"rem_triples": len(trip), "rem_triples_identical_result": rem_same,
+                                 "cases": len(cases), "disagreements": len(diffs),
                                  "input_distribution": kinds, "impl_result_distribution": outs,
                                  "oracle_failures": len(failing), "impl_exit": rc1, "model_exit": rc2}
     ctx.cov["samples"] += [{"case": cases[i], "impl": impl[i] if i < len(impl) else None,
@@ -315,12 +338,14 @@ class _Prog:
 
     def sleep_op(self, malformed_ok=True):
         r, st = self.r, self.step
+        # the rem argument: NULL (no flag), a separate object, the request object itself (nanosleep(&ts, &ts))
+        rem = r.choice(["", "", " remsep", " remalias", " remalias"])
         if malformed_ok and r.chance(1, 5):
             return r.choice(["sleep -1", "sleep -%d" % NS, "sleep 0 %d" % NS, "sleep 0 -1", "sleep -1 5", "sleep 3 1999999999",
-                             "sleep 0 %d" % (NS + 1), "sleep -2 999999999"])
+                             "sleep 0 %d" % (NS + 1), "sleep -2 999999999"]) + rem
         if st >= 100000000 and r.chance(1, 6):
-            return "sleep 0 999999999"              # largest valid nanosecond field (a few readings with a coarse clock)
-        return "sleep %d" % r.choice([0, 1, st - 1, st, st + 1, 2 * st, 3 * st, 5 * st, 8 * st, 12 * st, 25 * st, 40 * st])
+            return "sleep 0 999999999" + rem        # largest valid nanosecond field (a few readings with a coarse clock)
+        return "sleep %d" % r.choice([0, 1, st - 1, st, st + 1, 2 * st, 3 * st, 5 * st, 8 * st, 12 * st, 25 * st, 40 * st]) + rem
 
     def deadline(self):
         """<ns> [abs]: past, now, a few readings ahead, far ahead"""
@@ -542,10 +567,12 @@ def lib_calls(case, r):
             fr = {"op": words[0], "args": words, "T": T, "i0": i, "kind": None}
             if words[0] == "sleep":
                 fr["kind"] = "sleep"
-                if len(words) > 2:
-                    fr["req"] = (int(words[1]), int(words[2]))
+                nums = [x for x in words[1:] if x not in ("remsep", "remalias")]
+                fr["rem"] = 1 if "remsep" in words else 2 if "remalias" in words else 0
+                if len(nums) > 1:
+                    fr["req"] = (int(nums[0]), int(nums[1]))
                 else:
-                    fr["req"] = _tdiv(int(words[1]), NS)
+                    fr["req"] = _tdiv(int(nums[0]), NS)
             elif words[0] == "timedlock":
                 fr["kind"], fr["obj"] = "lock", words[1]
             elif words[0] == "timedjoin":
@@ -826,7 +853,12 @@ def lib_model_lines(calls):
         if c["kind"] not in ("sleep", "lock", "join") or c["ret"] is None:
             continue
         clk = "%d %s" % (len(c["reads"]), " ".join("%d %d" % (ns // NS, ns % NS) for _, ns in c["reads"]))
-        if c["kind"] == "sleep":
+        tail = ""
+        if c["kind"] == "sleep" and c.get("rem"):
+            # rem = separate object (preset by the interpreter to -4242, 4242) or the request object: contents after the call
+            inp = "libsleepr %d %d %d -4242 4242 %s" % (c["rem"], c["req"][0], c["req"][1], clk)
+            tail = " rem %s req %s" % (c["extra"].get("rem", "?").replace(",", " "), c["extra"].get("req", "?").replace(",", " "))
+        elif c["kind"] == "sleep":
             inp = "libsleep %d %d %s" % (c["req"][0], c["req"][1], clk)
         else:
             if c["deadline"] is None or c["deadline"] < 0:
@@ -834,7 +866,7 @@ def lib_model_lines(calls):
             att = c["attempts"]
             inp = "libtimed %s %d %d %d %s %s" % (c["kind"], c["deadline"] // NS, c["deadline"] % NS, len(att),
                                                   " ".join("1" if ok else "0" for _, ok, _ in att), clk)
-        impl = "ret %d reads %d yields %d ev %s" % (c["ret"], len(c["reads"]), len(c["yields"]), c["seq"] or "-")
+        impl = "ret %d reads %d yields %d ev %s%s" % (c["ret"], len(c["reads"]), len(c["yields"]), c["seq"] or "-", tail)
         out.append((" ".join(inp.split()), impl, c))
     return out
 
@@ -988,7 +1020,7 @@ def lib_tier(ctx, drv):
 
 def lib_stats(res):
     st = {"runs": len(res), "verdicts": {}, "by_family": {}, "by_workers": {}, "by_pswitch": {}, "by_clockstep": {},
-          "timed_calls": 0, "outcomes": {}, "ids": {}, "clock_readings": 0, "attempts": 0,
+          "timed_calls": 0, "outcomes": {}, "sleep_rem_argument": {}, "ids": {}, "clock_readings": 0, "attempts": 0,
           "attempts_after_a_reading": 0, "attempts_preempted_after_reading": 0,
           "attempts_whose_outcome_changed_after_the_reading": 0,
           "yields": 0, "yields_with_nonempty_run_queue": 0, "yields_handing_the_worker_over": 0,
@@ -1022,6 +1054,7 @@ def lib_stats(res):
             st["yields_handing_the_worker_over"] += sum(1 for (_, _, dq, nx) in cl["yields"] if nx and nx != "t%d" % cl["T"])
             if cl["kind"] == "sleep":
                 st["sleep_polls_max"] = max(st["sleep_polls_max"], len(cl["reads"]))
+                inc(st["sleep_rem_argument"], ("NULL", "separate object", "the request object")[cl.get("rem", 0)])
                 continue
             att, D = cl["attempts"], cl["deadline"]
             st["attempts"] += len(att)
